@@ -27,6 +27,10 @@ def is_prim(t):
     return t[0] in ("int", "bool", "addr")
 
 
+def ceil32(n):
+    return (n + 31) // 32 * 32
+
+
 def word_to_model(w, t):
     """raw ABI word -> Coq value (out-of-range words become values that fail has_type)"""
     if t[0] == "int":
@@ -37,6 +41,8 @@ def word_to_model(w, t):
 
 
 def tree_to_model(v, t):
+    if t[0] == "bytes":
+        return val_coq(bytes(v))
     if is_prim(t):
         if t[0] == "bool":
             return val_coq(bool(v))
@@ -47,6 +53,8 @@ def tree_to_model(v, t):
 
 
 def tree_to_abi(v, t):
+    if t[0] == "bytes":
+        return bytes(v)
     if is_prim(t):
         if t[0] == "addr":
             return "0x" + int(v).to_bytes(20, "big").hex()
@@ -57,7 +65,7 @@ def tree_to_abi(v, t):
 
 
 def is_dyn(t):
-    if t[0] == "darr":
+    if t[0] in ("darr", "bytes"):
         return True
     if t[0] == "sarr":
         return is_dyn(t[1])
@@ -88,6 +96,9 @@ def static_words(t):
 
 
 def enc_val(v, t):
+    if t[0] == "bytes":
+        v = bytes(v)
+        return len(v).to_bytes(32, "big") + v + b"\0" * (ceil32(len(v)) - len(v))
     if is_prim(t):
         return (int(v) % W).to_bytes(32, "big")
     if t[0] == "sarr":
@@ -135,6 +146,9 @@ def p_value(c):
     if tag == 2:
         n = c.next()
         return [p_value(c) for _ in range(n)]
+    if tag == 4:
+        n = c.next()
+        return bytes(c.next() for _ in range(n))
     if tag == 3:
         n = c.next()
         d = {}
@@ -220,6 +234,8 @@ def expected_logs(prog, events):
 def n_slots(t):
     if is_prim(t) or t[0] == "map":
         return 1
+    if t[0] == "bytes":
+        return 1 + ceil32(t[1]) // 32
     if t[0] == "sarr":
         return t[2] * n_slots(t[1])
     if t[0] == "darr":
@@ -247,6 +263,14 @@ def flat_slots(v, t):
     """expected slot words (None = not determined by the source semantics / checked elsewhere)"""
     if t[0] == "map":
         return [None]
+    if t[0] == "bytes":
+        v = bytes(v)
+        out = [len(v)]
+        for k in range(0, len(v), 32):
+            chunk = v[k:k + 32]
+            # a partial last word is determined only in its first len(chunk) bytes
+            out.append(int.from_bytes(chunk, "big") if len(chunk) == 32 else ("prefix", chunk))
+        return out + [None] * (n_slots(t) - len(out))
     if is_prim(t):
         return [int(v) % W]
     if t[0] == "sarr":
@@ -378,10 +402,20 @@ def compare_all(prog, calls, model, obs, unordered=(), first_only=False):
         exp = flat_slots(v, t)
         got = osto[name]
         for k, (e, g) in enumerate(zip(exp, got)):
+            if isinstance(e, tuple):       # ("prefix", bytes): only the leading bytes of the word are determined
+                if g.to_bytes(32, "big")[:len(e[1])] != e[1]:
+                    out.append({"what": "final-storage", "var": name, "slot_offset": k, "expected_prefix": e[1].hex(), "observed": hex(g)})
+                    return out
+                continue
             if e is not None and e != g:
                 out.append({"what": "final-storage", "var": name, "slot_offset": k, "expected": hex(e), "observed": hex(g)})
                 return out
     for name, slot, e, g in osto.get("$maps", []):
+        if isinstance(e, tuple):
+            if g.to_bytes(32, "big")[:len(e[1])] != e[1]:
+                out.append({"what": "final-storage", "var": name, "hashmap_element_slot": hex(slot), "expected_prefix": e[1].hex(), "observed": hex(g)})
+                return out
+            continue
         if e != g:
             out.append({"what": "final-storage", "var": name, "hashmap_element_slot": hex(slot), "expected": hex(e), "observed": hex(g)})
             return out
